@@ -352,44 +352,87 @@ func (a Float) M__round__(digitsObj Object) (Object, error) {
 
 // Rich comparison
 
+// floatCompare compares a with other which may be a float or an int
+// of any size.  An int is compared exactly, not through its nearest
+// float, so that 2**53+1 != 2.0**53.
+//
+// Returns cmp as -1, 0 or +1, ordered as false if either is a NaN
+// and ok as to whether other is a number that can be compared.
+func floatCompare(a Float, other Object) (cmp int, ordered bool, ok bool) {
+	var bBig *big.Int
+	switch b := other.(type) {
+	case Int:
+		if b < -(1<<float64precision) || b > 1<<float64precision {
+			bBig = big.NewInt(int64(b))
+		}
+	case *BigInt:
+		bBig = (*big.Int)(b)
+	}
+	switch {
+	case bBig == nil:
+		b, ok := convertToFloat(other)
+		if !ok {
+			return 0, false, false
+		}
+		switch {
+		case a < b:
+			return -1, true, true
+		case a > b:
+			return 1, true, true
+		case a == b:
+			return 0, true, true
+		}
+		return 0, false, true
+	case math.IsNaN(float64(a)):
+		return 0, false, true
+	case math.IsInf(float64(a), 0):
+		if a < 0 {
+			return -1, true, true
+		}
+		return 1, true, true
+	}
+	// Both conversions are exact and so is Cmp
+	return big.NewFloat(float64(a)).Cmp(new(big.Float).SetInt(bBig)), true, true
+}
+
 func (a Float) M__lt__(other Object) (Object, error) {
-	if b, ok := convertToFloat(other); ok {
-		return NewBool(a < b), nil
+	if cmp, ordered, ok := floatCompare(a, other); ok {
+		return NewBool(ordered && cmp < 0), nil
 	}
 	return NotImplemented, nil
 }
 
 func (a Float) M__le__(other Object) (Object, error) {
-	if b, ok := convertToFloat(other); ok {
-		return NewBool(a <= b), nil
+	if cmp, ordered, ok := floatCompare(a, other); ok {
+		return NewBool(ordered && cmp <= 0), nil
 	}
 	return NotImplemented, nil
 }
 
 func (a Float) M__eq__(other Object) (Object, error) {
-	if b, ok := convertToFloat(other); ok {
-		return NewBool(a == b), nil
+	if cmp, ordered, ok := floatCompare(a, other); ok {
+		return NewBool(ordered && cmp == 0), nil
 	}
 	return NotImplemented, nil
 }
 
 func (a Float) M__ne__(other Object) (Object, error) {
-	if b, ok := convertToFloat(other); ok {
-		return NewBool(a != b), nil
+	if cmp, ordered, ok := floatCompare(a, other); ok {
+		return NewBool(!ordered || cmp != 0), nil
 	}
 	return NotImplemented, nil
 }
 
 func (a Float) M__gt__(other Object) (Object, error) {
-	if b, ok := convertToFloat(other); ok {
-		return NewBool(a > b), nil
+	if cmp, ordered, ok := floatCompare(a, other); ok {
+		return NewBool(ordered && cmp > 0), nil
 	}
 	return NotImplemented, nil
 }
 
 func (a Float) M__ge__(other Object) (Object, error) {
-	if b, ok := convertToFloat(other); ok {
-		return NewBool(a >= b), nil
+	if cmp, ordered, ok := floatCompare(a, other); ok {
+		return NewBool(ordered && cmp >= 0), nil
 	}
 	return NotImplemented, nil
 }
